@@ -694,8 +694,85 @@ var oracleC12 = oracle{
 				c.fail("crash-lost-saved-work", st.Op.K+"|"+where, crash+fmt.Sprintf(": loaded tip %s has less work than the tip at the last completed Save", work.Label))
 				return
 			}
+			// life goes on after the restart: the recovered repository extends its chain by three
+			// headers, saves, and is restarted once more with a short retained depth; what that
+			// restart reports must again be the linked chain of accepted headers
+			if bad := continueAfterRecovery(cw, repo, work); bad != "" {
+				c.fail("crash-recovery-not-a-sound-start", st.Op.K+"|"+where+"|"+normalize(bad), crash+"; then 3 more headers, Save, restart: "+bad)
+				return
+			}
+			c.count("recoveries_continued", 1)
 		}
 	},
+}
+
+// continueAfterRecovery runs the continuation described in oracleC12 on a repository loaded from a
+// crash image and returns a description of what is wrong ("" if nothing).
+func continueAfterRecovery(cw *hdr.World, repo *headers.Repository, tip *ref.Node) string {
+	bad := ""
+	_, p := hdr.Safe(func() error {
+		label := tip.Label
+		var added []*hdr.UHeader
+		for i := 0; i < 3; i++ {
+			label += "/a"
+			u := hdr.Get(label)
+			if cw.Cfg.Splits != "" {
+				return nil
+			}
+			hc := u.Header.Copy()
+			if err := repo.ProcessHeader(cw.Ctx, &hc); err != nil {
+				bad = fmt.Sprintf("extending the recovered tip with %s failed: %v", label, err)
+				return nil
+			}
+			added = append(added, u)
+		}
+		if err := repo.Save(cw.Ctx); err != nil {
+			bad = "Save after the recovery failed: " + err.Error()
+			return nil
+		}
+		again := cw.NewRepo()
+		if err := again.VerifLoad(cw.Ctx, 2); err != nil {
+			bad = "the restart after that Save failed: " + err.Error()
+			return nil
+		}
+		newTip := tip.Height + len(added)
+		if again.Height() != newTip || again.LastHash() != added[len(added)-1].Hash {
+			bad = fmt.Sprintf("the restart reports tip height %d, want %d (%s)", again.Height(), newTip, label)
+			return nil
+		}
+		var prev *bitcoin.Hash32
+		for _, h := range heightsToCheck(cw, newTip) {
+			hash, err := again.Hash(cw.Ctx, h)
+			var header *wire.BlockHeader
+			if err == nil {
+				header, err = again.Header(cw.Ctx, h)
+			}
+			if err != nil || hash == nil || header == nil {
+				bad = fmt.Sprintf("height %d not retrievable after the restart: %v", h, err)
+				return nil
+			}
+			var want ref.Hash
+			if h > tip.Height {
+				want = hdr.RH(added[h-tip.Height-1].Hash)
+			} else if a := tip.AncestorAt(h); a != nil {
+				want = a.Hash
+			}
+			if hdr.RH(*hash) != want || *header.BlockHash() != *hash {
+				bad = fmt.Sprintf("height %d is not on the chain of the tip after the restart", h)
+				return nil
+			}
+			if prev != nil && cw.Cfg.Base == 0 && h > 0 && header.PrevBlock != *prev {
+				bad = fmt.Sprintf("height %d does not link to height %d after the restart", h, h-1)
+				return nil
+			}
+			prev = hash
+		}
+		return nil
+	})
+	if p != "" {
+		return "panic: " + p
+	}
+	return bad
 }
 
 // ---------------------------------------------------------------------------------------------
